@@ -97,6 +97,8 @@ def lean_failed_decls(output):
                     break
         except OSError:
             pass
+        if name == ':':
+            name = 'an example'
         out.add('%s (%s)' % (pos, name) if name else pos)
     return sorted(out)
 
